@@ -46,11 +46,27 @@ Print Assumptions roman_roundtrip.
 Example roman_limit_value : roman_limit = 3999%N.
 Proof. reflexivity. Qed.
 
-(* K22: above the limit the literal "#error" is printed; the round trip fails at 4000 *)
-Theorem roman_roundtrip_refuted :
-  exists n : N, (1 <= n)%N /\ to_roman n = Some error_string /\ roman_decode error_string <> Z.of_N n.
-Proof. exists 4000%N. split; [lia|]. split; [vm_compute; reflexivity|]. vm_compute. discriminate. Qed.
-Print Assumptions roman_roundtrip_refuted.
+(* above the limit (K22).  GenNum7.roman_overflow_decimal, regenerated from /repo, says which branch
+   toRoman has.  Repaired code (true): like 0, a value without a roman numeral is written in
+   decimal, and EVERY n >= 1 - unbounded - decodes back (digits read as decimal, letters as roman).
+   Unrepaired code (false): 4000 prints the literal "#error" and the round trip is refuted there;
+   roman_roundtrip above is then the partial statement with its exact guard n <= roman_limit. *)
+Definition roman_roundtrip_full : Prop :=
+  forall n : N, (1 <= n)%N -> exists s, to_roman n = Some s /\ roman_text_decode s = Z.of_N n.
+Definition roman_roundtrip_refuted_at_4000 : Prop :=
+  exists n : N, (1 <= n)%N /\ to_roman n = Some error_string /\ roman_text_decode error_string <> Z.of_N n.
+
+Theorem roman_roundtrip_all :
+  if roman_overflow_decimal then roman_roundtrip_full else roman_roundtrip_refuted_at_4000.
+Proof.
+  destruct roman_overflow_decimal eqn:E; [exact (roman_full_if E)|exact (roman_refuted_if E)].
+Qed.
+Print Assumptions roman_roundtrip_all.
+
+Example roman_overflow_sample :
+  to_roman 4000 = Some (if roman_overflow_decimal then [52; 48; 48; 48]%N else error_string)
+  /\ to_roman 0 = Some [48%N].
+Proof. vm_compute. auto. Qed.
 
 (* decimal tokens "1", "01", "001", ... with or without grouping: dropping the grouping separator
    and reading the digits positionally (leading zeros included) gives n back, for every n, width,
